@@ -35,7 +35,12 @@ def main():
         for m in mutants:
             sh(f"git -C {SCRATCH} checkout -- .")
             ok_apply = True
-            for e in m["edits"]:
+            if "patch" in m:
+                r = sh(f"git -C {SCRATCH} apply {os.path.join(VERIF, m['patch'])}")
+                if r.returncode != 0:
+                    print(f"!! {m['id']}: patch does not apply: {r.stdout[-300:]}")
+                    ok_apply = False
+            for e in m.get("edits", []):
                 p = os.path.join(SCRATCH, e["file"])
                 s = open(p).read()
                 if s.count(e["old"]) != e.get("count", 1):
